@@ -577,8 +577,8 @@ SOFT_TEMPLATES = [
     "{k} and {k}", "{k} or a", "not {k}", "{k} in a", "a in {k}", "a not in {k}", "{k} is a", "{k} is not a", "{k}, a = 1, 2",
     "del {k}", "def f():\n    global {k}", "with a as {k}: pass", "with {k}: pass", "try: pass\nexcept a as {k}: pass",
     "try: pass\nexcept {k}: pass", "{k} += 1", "a += {k}", "{k}", "{k}; {k}", "def f():\n    return {k}", "def f():\n    yield {k}",
-    "assert {k}", "assert a, {k}", "raise {k}", "raise a from {k}", "{k} @ a", "a[{k}]", "a[{k}:{k}]", "{{{k}: {k}}}", "{{{k}}}",
-    "f'{{{k}}}'", "f'{{{k}!r}}'", "{k} * a", "{k} ** a", "a ** {k}", "{k} < a", "a < {k}", "({k})", "({k},)", "[{k}]", "if {k}: pass",
+    "assert {k}", "assert a, {k}", "raise {k}", "raise a from {k}", "{k} @ a", "a[{k}]", "a[{k}:{k}]", "{{k}: {k}}", "{{k}}",
+    "f'{{k}}'", "f'{{k}!s}'", "f'{{k}=}'", "f'{a:{k}}'", "{k} * a", "{k} ** a", "a ** {k}", "{k} < a", "a < {k}", "({k})", "({k},)", "[{k}]", "if {k}: pass",
     "while {k}: pass", "match {k}:\n    case {k}: pass", "match a:\n    case A({k}=1): pass", "match a:\n    case {k}.b: pass",
     "{k} = {k}", "a = {k} -1", "a = {k} (b)", "a = b if {k} (c) else c", "({k} := 1)", "a = [{k} (b) for b in c]", "@{k}\ndef f(): pass",
     "@a.{k}\ndef f(): pass", "class A:\n    {k} = 1", "class A:\n    def {k}(self): pass", "class A:\n    {k}: a", "class A:\n    {k}: a = 1",
